@@ -4,7 +4,7 @@
    functions read the fields that survive between calls, is read from the source
    by the translator (Gen/OptState.v, Gen/Resets.v). *)
 From Coq Require Import NArith List Bool String.
-From GJ Require Import Gen.OptState Gen.Resets Model.OptState Proofs.OptStateP Gen.SliceShape Model.SlicePool Proofs.SlicePoolP.
+From GJ Require Import Gen.OptState Gen.Resets Model.OptState Proofs.OptStateP Gen.SliceShape Model.SlicePool Proofs.SlicePoolP Model.DecOpts Proofs.DecOptsP.
 Import ListNotations.
 Open Scope string_scope.
 
@@ -94,3 +94,19 @@ Example C11_slice_ex :
   calls slice_clears fresh_pool [([Some 1; Some 2; Some 3; Some 4], false); ([None; Some 7; None; None; None], true)]
   = [None; Some [0; 7; 0; 0; 0]].
 Proof. vm_compute. reflexivity. Qed.
+
+(* ---- a long-lived Decoder: options given to one call (Model/DecOpts.v) ---- *)
+(* decode.go, as the translator read it: the Option value saved before the call's option functions run is put back
+   by a deferred statement, that is on every way out of the call *)
+Theorem C11_decoder_call_options_source : decoder_call_options_restore = OnEveryWayOut.
+Proof. reflexivity. Qed.
+(* whatever calls the Decoder has served before -- with whatever options, decoded, failed or left by a panic -- a call
+   sees its own options applied to what the Decoder was set up with, as on a fresh Decoder *)
+Theorem C11_decoder_call_sees_its_own_options : forall (opts optfun : Type) (apply : opts -> optfun -> opts) configured history given,
+  seen opts optfun apply (run opts optfun apply decoder_call_options_restore configured history) given = seen opts optfun apply configured given.
+Proof. rewrite C11_decoder_call_options_source. exact seen_as_if_fresh. Qed.
+Print Assumptions C11_decoder_call_sees_its_own_options.
+(* putting the saved value back only when the call succeeded is not enough *)
+Theorem C11_decoder_restore_on_success_only_refuted :
+  seen N N flags_apply (run N N flags_apply OnSuccessOnly 0%N [([2%N], ReturnedError)]) [] <> seen N N flags_apply 0%N [].
+Proof. exact success_only_refuted. Qed.
